@@ -429,7 +429,7 @@ def run(ctx):
     mine = [c for i, c in enumerate(cases) if i % nw == me]
     ctx.rng.shuffle(mine)
     n_random = ctx.scale(1500, 40000)
-    budget = 38 if ctx.quick else 300
+    budget = 20 if ctx.quick else 150        # CPU seconds of this worker (vlib caps wall-clock at 4x)
     base = ctx.seed * 1000003 + me * 100003
     done_sys = 0
     i = 0
